@@ -71,6 +71,25 @@ func tooMuchSites() []site {
 				}
 				return true
 			})
+			var loops [][2]token.Pos // for / range statements
+			ast.Inspect(fd.Body, func(n ast.Node) bool {
+				switch l := n.(type) {
+				case *ast.ForStmt:
+					loops = append(loops, [2]token.Pos{l.Pos(), l.End()})
+				case *ast.RangeStmt:
+					loops = append(loops, [2]token.Pos{l.Pos(), l.End()})
+				}
+				return true
+			})
+			// a write anywhere in a loop that contains e precedes e (an earlier iteration has run it)
+			inLoopWith := func(w, e token.Pos) bool {
+				for _, l := range loops {
+					if e >= l[0] && e < l[1] && w >= l[0] && w < l[1] {
+						return true
+					}
+				}
+				return false
+			}
 			leftBefore := func(w, e token.Pos) bool { // w is in a returning block that ends before e
 				for _, b := range retBlocks {
 					if w >= b[0] && w < b[1] && e >= b[1] {
@@ -141,8 +160,11 @@ func tooMuchSites() []site {
 					continue
 				}
 				var firstWrite *ev
-				for j := 0; j < i; j++ {
-					if strings.HasPrefix(evs[j].kind, "write:") && !leftBefore(evs[j].pos, e.pos) {
+				for j := range evs {
+					if !strings.HasPrefix(evs[j].kind, "write:") {
+						continue
+					}
+					if (j < i && !leftBefore(evs[j].pos, e.pos)) || inLoopWith(evs[j].pos, e.pos) {
 						firstWrite = &evs[j]
 						break
 					}
